@@ -623,7 +623,6 @@ Definition de (X : ext) (j : json) : outcome dset := de_ds_json X j.
 Definition de_text (X : ext) (j : json) : outcome dset := de_ds_json X (canon_top j).
 
 (** * Well-formed data sets and the documented normalisations *)
-Definition wf_str (s : str) : bool := forallb (fun c => c <? 1114112) s.
 Definition f32_canon (b : N) : N := if f32_is_nan b then f32_nan else b.
 Definition f64_canon (b : N) : N := if f64_is_nan b then f64_nan else b.
 Definition pn_norm (s : str) : str := pn_display (pn_groups s).
@@ -653,13 +652,7 @@ Definition wf_prim (vr : vrT) (p : prim) : bool :=
       | CStr | CPN => true
       | CAT => match p with PTags l => forallb (fun t => t <? 2 ^ 32) l | _ => false end
       | CSeq => false
-      | CBin =>
-          match p with
-          | PStr s => wf_str s
-          | PStrs l => forallb wf_str l
-          | PTemporal l => forallb (fun x => wf_str (snd x)) l
-          | _ => true
-          end
+      | CBin => true
       | CNum =>
           match vr with
           | V_FL => match p with PF32 l => forallb (fun b => b <? 2 ^ 32) l | _ => false end
@@ -745,6 +738,38 @@ with norm_dset (X : ext) (d : dset) : dset :=
   | DCons t vr v tl => DCons t vr (norm_value X vr v) (norm_dset X tl)
   end.
 
+(** Hypotheses of the Annex F conformance theorem (C24): well-formed, person names
+    have at most three component groups (two '='), and a UL element held as
+    64-bit integers only has values that the serialiser writes as numbers. *)
+Definition pn_three_groups (s : str) : bool :=
+  match pn_groups s with (_, _, Some p) => negb (existsb (N.eqb 61) p) | _ => true end.
+Definition is_jint (j : json) : bool := match j with JInt _ => true | _ => false end.
+Definition conf_prim (X : ext) (vr : vrT) (p : prim) : bool :=
+  wf_prim vr p &&
+  match multiplicity p with
+  | O => true
+  | _ =>
+      match vr with
+      | V_PN => forallb pn_three_groups (multi_str X p)
+      | V_UL => match p with PInt k l => forallb (fun z => is_jint (int_json k z)) l | _ => true end
+      | _ => true
+      end
+  end.
+Fixpoint conf_value (X : ext) (vr : vrT) (v : value) : bool :=
+  match v with
+  | VPrim p => conf_prim X vr p
+  | VSeq it => vr_eqb vr V_SQ && conf_items X it
+  | VPix => false
+  end
+with conf_items (X : ext) (it : items) : bool :=
+  match it with INil => true | ICons d tl => conf_dset_from X None d && conf_items X tl end
+with conf_dset_from (X : ext) (lo : option N) (d : dset) : bool :=
+  match d with
+  | DNil => true
+  | DCons t vr v tl => tag_above lo t && (t <? 2 ^ 32) && conf_value X vr v && conf_dset_from X (Some t) tl
+  end.
+Definition conf_dset (X : ext) (d : dset) : bool := conf_dset_from X None d.
+
 (** * Correspondence cases *)
 Definition outcome_eqb {A} (eqb : A -> A -> bool) (a b : outcome A) : bool :=
   match a, b with
@@ -765,14 +790,14 @@ Definition ext_of (t32 t64 : list (N * str)) (p32 p64 : list (str * option N)) :
 
 Inductive jcase :=
 (* a data set, what to_value returned, what from_value of that returned, verdict of the harness' Annex F
-   validator, whether the harness counts the data set as inside the hypotheses of the theorems *)
-| CaseRT (X : ext) (d : dset) (out : outcome json) (back : outcome dset) (annexf : bool) (wf : bool)
+   validator, whether the harness counts the data set as inside the hypotheses of C23_rt / of C24_conforms *)
+| CaseRT (X : ext) (d : dset) (out : outcome json) (back : outcome dset) (annexf : bool) (wf : bool) (conf : bool)
 (* a JSON document (printed to text by the harness) and what from_str returned *)
 | CaseDe (X : ext) (j : json) (got : outcome dset).
 
 Definition check_case (c : jcase) : bool :=
   match c with
-  | CaseRT X d out back _ wf =>
+  | CaseRT X d out back _ wf _ =>
       Bool.eqb (wf_dset d) wf &&
       outcome_eqb json_eqb (ser X d) out &&
       match out with
